@@ -10,12 +10,26 @@ use std::sync::Arc;
 
 const FLAT: &str = "\u{266D}";
 
+pub const GENERATED: &str = "\u{0}generated-identifier";
+
+/// equality of documents in which an expected GENERATED identifier matches any string
+pub fn same_doc(expected: &Value, got: &Value) -> bool {
+    match (expected, got) {
+        (Value::String(e), Value::String(_)) if e == GENERATED => true,
+        (Value::Object(a), Value::Object(b)) => a.len() == b.len() && a.iter().all(|(k, v)| b.get(k).is_some_and(|w| same_doc(v, w))),
+        (Value::Array(a), Value::Array(b)) => a.len() == b.len() && a.iter().zip(b.iter()).all(|(v, w)| same_doc(v, w)),
+        _ => expected == got,
+    }
+}
+
 /// independent expectation: the submitted document with `_id` added to each tracked object
 pub fn expect_tracked(o: &Map<String, Value>, path: &[String]) -> Value {
     let uuid = match o.get("_id").and_then(|v| v.as_str()) {
         Some(s) => s.to_string(),
         None if path.is_empty() => "\u{221A}".to_string(),
-        None => sha_hex(path.join("").as_bytes()),
+        // the statement does not prescribe the value of generated identifiers: any string is accepted
+        // (GENERATED is a wildcard in `same_doc`); the path digest is only used to extend the path
+        None => GENERATED.to_string(),
     };
     let mut fpath = path.to_vec();
     fpath.push(uuid.clone());
@@ -48,7 +62,9 @@ fn expect_flat(v: &Value, path: &[String]) -> Value {
 fn tracked(v: &Value, flat_pos: bool, out: &mut BTreeMap<String, Vec<Value>>) {
     match v {
         Value::Object(o) if flat_pos => {
-            let id = o.get("_id").and_then(|x| x.as_str()).unwrap_or("?").to_string();
+            let explicit = o.get("_id").and_then(|x| x.as_str()).unwrap_or("?").to_string();
+            // objects without an explicit identifier in the submitted document are keyed by a fixed name
+            let id = if explicit == GENERATED || (explicit.len() == 64 && explicit.bytes().all(|b| b.is_ascii_hexdigit())) { "<generated>".to_string() } else { explicit };
             let mut shallow = Map::new();
             for (k, val) in o {
                 if k.ends_with(FLAT) {
@@ -59,6 +75,9 @@ fn tracked(v: &Value, flat_pos: bool, out: &mut BTreeMap<String, Vec<Value>>) {
                 } else {
                     shallow.insert(k.clone(), val.clone());
                 }
+            }
+            if id == "<generated>" {
+                shallow.remove("_id");
             }
             out.entry(id).or_default().push(Value::Object(shallow));
         }
@@ -143,7 +162,7 @@ impl Probe for ReadBackProbe {
                 };
                 if !array_conflict {
                     cx.count("exact_readback");
-                    if got.get("ok") != Some(&want) {
+                    if !got.get("ok").is_some_and(|g| same_doc(&want, g)) {
                         cx.violation("C04", &sig("read-differs-from-submitted-document"), sc, &h,
                             json!({"replica": r, "input": doc, "expected": want, "read": got}));
                         continue;
@@ -295,7 +314,7 @@ pub fn custom_root_sweep(rep: &mut Report, thorough: bool) {
                     Err(p) => json!({"update_panic": p}),
                 };
                 let id_ok = matches!(&r, Ok(Ok(id)) if Some(id.clone()) == root || (root.is_none() && id == "\u{221A}"));
-                if (got.get("ok") != Some(&want) || !id_ok) && !reported {
+                if (!got.get("ok").is_some_and(|g| same_doc(&want, g)) || !id_ok) && !reported {
                     reported = true;
                     rep.violations.push(Violation { property: "C04".into(), signature: "C04:custom-root-read-differs".into(), scenario: "custom-roots".into(), history: vec![],
                         detail: json!({"input": {"documents": docs, "sequence": trace, "commit_after_each": commit_each}, "expected": want, "read": got, "returned_root": format!("{:?}", r)}) });
